@@ -264,6 +264,9 @@ func (cfg *Config) paramExp(pe *syntax.ParamExp) (string, error) {
 		case syntax.OtherParamOps:
 			switch arg {
 			case "Q":
+				if !set {
+					break // an unset parameter expands to nothing
+				}
 				str, err = syntax.Quote(str, syntax.LangBash)
 				if err != nil {
 					// Is this even possible? If a user runs into this panic,
